@@ -1085,6 +1085,35 @@ func classify(v *report.Violation) {
 		}
 		return false
 	}
+	// informational classes of the defects repaired by fixes/C08-F1..F4 (not listed as known findings,
+	// so they are reported until the fixes are applied)
+	crashDesc, _ := v.Extra["crash_desc"].(string)
+	crashOp, _ := v.Extra["crash_op"].(string)
+	sessFile := "sessions/" + sess + ".json"
+	if i := sessIndex(sess); i >= 0 && strings.HasPrefix(v.Kind, "A1-") && crashed {
+		switch {
+		case crashOp == fmt.Sprintf("Start(%d)", i) && !has(typStop, false) &&
+			(strings.HasSuffix(crashDesc, "MkdirAll(sessions)") || strings.Contains(crashDesc, "WriteFile("+sessFile+")")):
+			v.Class = "C08-F1-start-sent-before-session-file-written"
+			return
+		case crashOp == fmt.Sprintf("Stop(%d)", i) && strings.HasPrefix(crashDesc, "torn") && strings.Contains(crashDesc, "WriteFile("+sessFile+")"):
+			v.Class = "C08-F2-session-file-torn-by-in-place-rewrite"
+			return
+		}
+	}
+	if v.Kind == "A4-stop-retransmitted" && !crashed && epochs == 0 {
+		ops, _ := v.Extra["ops"].([]string)
+		for _, op := range ops {
+			if op == "Restart" {
+				if has(typStop, false) {
+					v.Class = "C08-F4-delivered-record-persisted-by-graceful-stop"
+				} else {
+					v.Class = "C08-F3-drained-session-file-left-behind"
+				}
+				return
+			}
+		}
+	}
 	switch v.Kind {
 	case "A1-stop-missing":
 		// the Stop was attempted by the process that later crashed, the server did not answer, so it
@@ -1097,7 +1126,8 @@ func classify(v *report.Violation) {
 			v.Class = "C08-K1-stop-only-in-memory-queue"
 		}
 	case "A2-start-after-stop":
-		if !crashed && epochs == 0 && has(typStart, false) {
+		// the only source of a late Start is the retry queue: some Start of this session went unanswered
+		if has(typStart, false) {
 			v.Class = "C08-K2-queued-start-overtaken-by-stop"
 		}
 	}
@@ -1105,7 +1135,7 @@ func classify(v *report.Violation) {
 
 func tierBounds(thorough bool) bounds {
 	if thorough {
-		return bounds{maxSess: 3, maxLen: 5, maxDrops: 2, dropsAtLen: map[int]int{5: 1}, torn: true, budget: 15 * time.Minute}
+		return bounds{maxSess: 3, maxLen: 5, maxDrops: 2, dropsAtLen: map[int]int{5: 1}, torn: true, budget: 16 * time.Minute}
 	}
 	return bounds{maxSess: 2, maxLen: 4, maxDrops: 2, dropsAtLen: map[int]int{4: 1}, torn: true, budget: 50 * time.Second}
 }
